@@ -138,11 +138,11 @@ def run(ctx, build):
     if ctx.widen:
         nsess *= 2
     rec = {'data': 0}
-    Bs = [8, 9, 16, 512, 1468, 65464]
+    Bs = [8, 9, 16, 512, 1468, 65464, 65465, 70000]   # the last two: requests above the cap; the client goes by the OACK
     for i in range(nsess):
         B = rng.choice(Bs) if i % 5 else None          # None: no options, 512 default, starts with DATA 1
-        eff = B or 512
-        k = rng.choice([0, 1, 2, 3, 5]) if eff < 65464 else rng.choice([0, 1])
+        eff = min(B or 512, 65464)
+        k = rng.choice([0, 1, 2, 3, 5]) if eff < 65464 else rng.choice([0, 1, 1, 2])
         n = max(0, k * eff + rng.choice([-1, 0, 1]))
         if rng.random() < 0.1:
             n = rng.choice([0, 1])
